@@ -1,6 +1,7 @@
 package xgen
 
 import (
+	"strings"
 	"math"
 
 	"pgregory.net/rapid"
@@ -54,6 +55,9 @@ func (g *G) StrOperand(ctx *xdoc.Node) xast.Expr {
 	}
 	if g.chance(1, "parenstr") {
 		return &xast.Group{X: &xast.Str{S: g.pick(cmpStrLits, "slit")}}
+	}
+	if g.chance(2, "numberishlit") {
+		return &xast.Str{S: litSafe(Numberish(g.T, "slit"))}
 	}
 	return &xast.Str{S: g.pick(cmpStrLits, "slit")}
 }
@@ -207,7 +211,7 @@ func (g *G) NonNegInt(ctx *xdoc.Node) xast.Expr {
 	case 0:
 		return &xast.Call{Name: "count", Args: []xast.Expr{g.FlatPath(xref.NodeSet{ctx})}}
 	case 1:
-		return &xast.Call{Name: "string-length", Args: []xast.Expr{g.FlatPath(xref.NodeSet{ctx})}}
+		return g.strLenOrCount(ctx)
 	}
 	return &xast.Num{Lit: g.pick(intLits, "ilit")}
 }
@@ -230,9 +234,12 @@ func (g *G) Arith(ctx *xdoc.Node, depth int) xast.Expr {
 		case 2:
 			return &xast.Call{Name: "number", Args: []xast.Expr{g.FlatPath(base)}}
 		case 3:
+			if g.chance(5, "numberish") {
+				return &xast.Call{Name: "number", Args: []xast.Expr{&xast.Str{S: litSafe(Numberish(g.T, "numstr"))}}}
+			}
 			return &xast.Call{Name: "number", Args: []xast.Expr{&xast.Str{S: g.pick([]string{"12", " 7 ", "x", "", "1e3", "-2.5", "+1", ".5", "5.", "Infinity", "0x10", "1 2", " \n7\r\n", "\t2", "\n", "3\n"}, "numstr")}}}
 		case 4:
-			return &xast.Call{Name: "string-length", Args: []xast.Expr{g.FlatPath(base)}}
+			return g.strLenOrCount(ctx)
 		}
 		if g.chance(4, "randlit") {
 			if g.chance(2, "parenrandlit") {
@@ -377,4 +384,77 @@ func (g *G) StrTop(ctx *xdoc.Node, depth int) xast.Expr {
 		return &xast.Call{Name: "string-length", Args: []xast.Expr{g.StrArg(ctx, depth, true)}}
 	}
 	return g.StrExpr(ctx, depth)
+}
+
+// Numberish draws a string from the neighbourhood of the XPath Number grammar:
+// padding (XML white space, or characters that only Unicode calls space), sign,
+// digits (ASCII, or digits of other scripts), fraction, and suffixes that other
+// number grammars accept (exponent, hex, underscores, Inf/NaN spellings). About
+// half of the strings are XPath numbers, the rest must convert to NaN.
+func Numberish(t *rapid.T, label string) string {
+	xmlWS := []string{"", "", "", " ", "\t", "\n", "\r", "  ", " \n"}
+	otherWS := []string{"\v", "\f", "\u00a0", "\u0085", "\u3000", "\u2003", "\ufeff", "\u200b"}
+	pad := func(l string) string {
+		if rapid.IntRange(0, 5).Draw(t, l+"other") == 0 {
+			return rapid.SampledFrom(otherWS).Draw(t, l)
+		}
+		return rapid.SampledFrom(xmlWS).Draw(t, l)
+	}
+	sign := rapid.SampledFrom([]string{"", "", "", "", "-", "-", "+", "--", "- ", "\u2212"}).Draw(t, label+"sign")
+	var body string
+	switch rapid.IntRange(0, 11).Draw(t, label+"body") {
+	case 0, 1, 2:
+		body = rapid.SampledFrom([]string{"0", "1", "2", "7", "10", "12", "007", "100", "4294967296", "00"}).Draw(t, label+"int")
+	case 3, 4:
+		body = rapid.SampledFrom([]string{"1", "0", "12", ""}).Draw(t, label+"ip") + "." + rapid.SampledFrom([]string{"5", "0", "25", "125", "", "50"}).Draw(t, label+"fp")
+	case 5:
+		body = rapid.SampledFrom([]string{"1e3", "1E3", "1e-2", "1.5e2", "1e", "e3", "1p3"}).Draw(t, label+"exp")
+	case 6:
+		body = rapid.SampledFrom([]string{"0x10", "0X1F", "0x1p4", "0b11", "0o17", "1_000", "1,5", "1 2", "1.2.3", "1..2"}).Draw(t, label+"alt")
+	case 7:
+		body = rapid.SampledFrom([]string{"Inf", "inf", "Infinity", "infinity", "NaN", "nan", "INF"}).Draw(t, label+"special")
+	case 8:
+		body = rapid.SampledFrom([]string{"١٢", "１２", "१", "²", "①", "1٠"}).Draw(t, label+"script")
+	case 9:
+		body = rapid.SampledFrom([]string{"", ".", "-", "t", "x1", "1x", "1f", "1d", "1L"}).Draw(t, label+"junk")
+	default:
+		body = rapid.SampledFrom([]string{"3", "5", "2.5", "10", ".5", "7."}).Draw(t, label+"plain")
+	}
+	return pad(label+"lpad") + sign + body + pad(label+"rpad")
+}
+
+// WithNumberish returns o with k drawn Numberish strings added to the text and
+// attribute value pools.
+func WithNumberish(t *rapid.T, o DocOpts, k int) DocOpts {
+	o.Texts = append([]string{}, o.Texts...)
+	o.AtVals = append([]string{}, o.AtVals...)
+	for i := 0; i < k; i++ {
+		o.Texts = append(o.Texts, Numberish(t, "ntext"))
+		o.AtVals = append(o.AtVals, Numberish(t, "naval"))
+	}
+	return o
+}
+
+// litSafe makes a drawn string usable inside an XPath literal.
+func litSafe(s string) string {
+	return strings.NewReplacer("'", "", "\"", "").Replace(s)
+}
+
+// strLenOrCount draws string-length(flat path) when the string-value it measures is
+// ASCII (the engine counts bytes; C09 claims ASCII arguments only) and count(flat
+// path) otherwise.
+func (g *G) strLenOrCount(ctx *xdoc.Node) xast.Expr {
+	fp := g.FlatPath(xref.NodeSet{ctx})
+	if v, err := xref.Eval(g.Env, fp, ctx); err == nil {
+		ascii := true
+		for _, r := range xref.ToStr(v) {
+			if r >= 0x80 {
+				ascii = false
+			}
+		}
+		if ascii {
+			return &xast.Call{Name: "string-length", Args: []xast.Expr{fp}}
+		}
+	}
+	return &xast.Call{Name: "count", Args: []xast.Expr{fp}}
 }
